@@ -97,7 +97,8 @@ def generate(seed, prop):
     if kind in ("azimuthal", "multi"):
         n_az = rng.choice([1, 2, 2, 3, 3, 4, 5])
     equal = rng.random() < 0.75
-    nmax = 12 if prop != "C20" else 8
+    from ..core import deep
+    nmax = (12 if prop != "C20" else 8) * (2 if deep() else 1)
     curves = CV.draw_curve_sets(rng, len(f), n_az, equal_counts=equal, nmax=nmax)
     if kind == "diffuse":
         curves = [[curves[0][0]]]
@@ -140,6 +141,8 @@ def generate(seed, prop):
     if prop == "C12" and rng.random() < 0.5:
         fault_rate = rng.choice([0.15, 0.3, 0.6])
     max_ops = {"C20": 8, "C12": 10}.get(prop, 25)
+    if deep():
+        max_ops *= 2
     n_ops = rng.randint(1, max_ops) if rng.random() < 0.7 else rng.randint(1, 4)
     if not any(v > 0 for v in w.values()):
         w["update_peaks"] = 4.0
